@@ -4,6 +4,7 @@ import (
 	"encoding/json"
 	"strings"
 
+	"verif/sim/core"
 	"verif/sim/ref"
 )
 
@@ -278,7 +279,7 @@ func (rb *rawBuild) applyFault(fault string, arg int, op *BuiltOp) {
 			rb.deltaAfter = nd
 		}
 	case ref.FDeltaInvalid:
-		v := variant(6)
+		v := variant(9)
 		disabled := disabledAction(w)
 		if v == 5 && disabled == "" {
 			v = 0
@@ -294,6 +295,11 @@ func (rb *rawBuild) applyFault(fault string, arg int, op *BuiltOp) {
 			rb.delta["patches"] = []any{map[string]any{"action": "remove-public-keys", "ids": []any{}}}
 		case 3:
 			rb.delta["updateCommitment"] = "not-a-multihash"
+		case 6, 7, 8:
+			// also-known-as URIs listed twice in one patch: byte-identical, or different strings that denote the same URI
+			// (scheme case, empty fragment); the v1 validator compares the parsed and re-serialised form
+			pair := [][]any{{"https://example.com/a", "https://example.com/a"}, {"https://example.com/a", "HTTPS://example.com/a"}, {"urn:x:1", "https://example.com/a", "https://example.com/a#"}}[v-6]
+			rb.delta["patches"] = []any{map[string]any{"action": core.Pick(core.NewRNG(uint64(arg)), []string{"add-also-known-as", "remove-also-known-as"}), "uris": pair}}
 		default:
 			big := strings.Repeat("x", int(w.Plan.Swarm.MaxDeltaSize)+1)
 			rb.delta["patches"] = []any{map[string]any{"action": "add-also-known-as", "uris": []any{"did:big:" + big}}}
